@@ -25,10 +25,12 @@ import (
 // discards everything but reports Debug as enabled so the debug-only branches of inConns run too
 type verifCTHandler struct{ debug bool }
 
-func (h verifCTHandler) Enabled(_ context.Context, l slog.Level) bool { return h.debug && l >= slog.LevelDebug }
-func (h verifCTHandler) Handle(context.Context, slog.Record) error   { return nil }
-func (h verifCTHandler) WithAttrs([]slog.Attr) slog.Handler          { return h }
-func (h verifCTHandler) WithGroup(string) slog.Handler               { return h }
+func (h verifCTHandler) Enabled(_ context.Context, l slog.Level) bool {
+	return h.debug && l >= slog.LevelDebug
+}
+func (h verifCTHandler) Handle(context.Context, slog.Record) error { return nil }
+func (h verifCTHandler) WithAttrs([]slog.Attr) slog.Handler        { return h }
+func (h verifCTHandler) WithGroup(string) slog.Handler             { return h }
 
 type verifCTReader struct{ f func([]byte) }
 
